@@ -1050,7 +1050,7 @@ func main() {
 		Worker:         worker,
 		Replay:         replay,
 		HangSeconds:    150,
-		QuickBudget:    4 * time.Minute,
-		ThoroughBudget: 20 * time.Minute,
+		QuickBudget:    10 * time.Minute,
+		ThoroughBudget: 30 * time.Minute,
 	})
 }
